@@ -158,6 +158,14 @@ def judge_length(o, seg, got, e, what):
     if abs(got - ref) <= tol:
         return None, None
     k = lib.kind_of(seg)
+    if k == "A":
+        # a scaled-up arc misses its own stored end points (C05's closure gap) and point(t) jumps there: when that
+        # jump exceeds the tolerance, "the true length of its geometry" is not defined to within it
+        a, b = lib.xy(seg.point(1e-12)), lib.xy(seg.point(1.0 - 1e-12))
+        s0, e0 = lib.xy(seg.start), lib.xy(seg.end)
+        if math.hypot(a[0] - s0[0], a[1] - s0[1]) + math.hypot(b[0] - e0[0], b[1] - e0[1]) > tol:
+            o.label("reference:inconclusive")
+            return None, None
     if subdivision_kind(seg):
         lower = polygon_length(seg) - 1e-9 * max(ref, 1e-3)
         if lower <= got < ref:
